@@ -38,6 +38,9 @@ def main(run):
     t4, _ = explore_replay(run, "RelocCoreAlphabet", "RelocIncFiles", 5 if thorough else 4, 1, BASES, opts, nontrivial, keep=40000,
                            label=f"AsmCore relocation core, all programs of <= {5 if thorough else 4} statements", timeout=6000)
     tasks += t4
+    t5, _ = explore_replay(run, "RelocTwoAlphabet", "RelocIncFiles", 2, 2, BASES if thorough else [512, 57342], opts, nontrivial, keep=40000,
+                           label="AsmCore relocation, two linked files x <= 2 statements (exhaustive)", timeout=6000)
+    tasks += t5
     recs2, inc2 = explore(run, "RelocAlphabet", "RelocIncFiles", 7, 2, BASES, simulate=(2000 if thorough else 200), depth=15,
                           seed=run.seed + 3, label="AsmCore relocation simulation (<= 7 stmts x 2 files)")
     tasks2 = replay_all(run, recs2, inc2, opts, nontrivial)
